@@ -56,10 +56,23 @@ class VFn:
         self.name = name            # display name, e.g. EncoderState::consume_once
 
 
+class VTrait:
+    """A trait declaration copied from /repo with contract clauses woven in front of each method's `;`."""
+
+    def __init__(self, file, path, overlay, props=(), text=""):
+        self.file = file
+        self.path = path
+        self.overlay = overlay
+        self.props = list(props)
+        self.text = text
+
+
 class VImpl:
-    def __init__(self, header, fns):
+    def __init__(self, header, fns, inner_items=(), ghost_items=()):
+        self.ghost_items = list(ghost_items)   # ghost lines emitted at the top of the impl block (spec fns only)
         self.header = header        # e.g. "impl EncoderState"
         self.fns = fns
+        self.inner_items = list(inner_items)   # [(file, path)] verbatim inner items (e.g. `type Target = ..;`)
 
 
 class VLemma:
@@ -72,7 +85,9 @@ class VLemma:
 
 
 class VerusUnit:
-    def __init__(self, name, uses, segments, lemmas=(), rlimit=None, extra_args=(), cex_search=None):
+    def __init__(self, name, uses, segments, lemmas=(), rlimit=None, extra_args=(), cex_search=None, keep_visibility=False):
+        self.extra_configs = []    # additional rustc cfg passes, e.g. [["-C", "debug-assertions=off"]]
+        self.keep_visibility = keep_visibility   # units with trait impls need `pub` kept (trait methods are public)
         # cex_search: {"crate":..., "attach_to": file in /repo, "src": file under vx/<unit>/, "filter": test name prefix}
         self.cex_search = cex_search
         self.name = name
@@ -128,7 +143,7 @@ def assemble(unit, canary=False):
         src, it = _extract(vf.file, vf.path)
         raw = rustlex.item_text(src, it)
         where = "%s:%s" % (vf.file, vf.fname)
-        norm = normalise.normalise_fn(raw, where, applied, vf.rules, vf.subs)
+        norm = normalise.normalise_fn(raw, where, applied, vf.rules, vf.subs, keep_visibility=unit.keep_visibility)
         ovl_path = os.path.join(VX, unit.name, "overlays", vf.overlay)
         ovl = _read(ovl_path)
         if canary:
@@ -160,7 +175,7 @@ def assemble(unit, canary=False):
             attrs = rustlex.leading_attrs(src, it)
             der = re.findall(r"#\[derive\(([^)]*)\)\]", attrs)
             keep = [d.strip() for ds in der for d in ds.split(",") if d.strip() in seg.keep_derives]
-            text = normalise.strip_visibility(raw)
+            text = raw if unit.keep_visibility else normalise.strip_visibility(raw)
             if "NonZeroUsize::new_unchecked" in text:
                 text = normalise.n6_nonzero_unchecked(text, applied, "%s:%s" % (seg.file, seg.path[-1]))
             for (rule, old, new, why) in seg.subs:
@@ -178,9 +193,37 @@ def assemble(unit, canary=False):
                 out.append("#[derive(%s)]" % ", ".join(keep))
             emit(text)
             info["items"].append({"item": " / ".join(seg.path), "file": seg.file, "sha256": sha256(raw)})
+        elif isinstance(seg, VTrait):
+            src, it = _extract(seg.file, seg.path)
+            raw = rustlex.item_text(src, it)
+            text = raw if unit.keep_visibility else normalise.strip_visibility(raw)
+            # N0: the `;` that ends a method declaration moves to its own line
+            # N5: return values of method declarations get a name
+            def _decl(m):
+                ret = ""
+                if m.group(3):
+                    ty = m.group(3).strip()[2:].strip()
+                    ret = " -> (ret: %s)" % ty
+                return "%s%s%s\n%s;" % (m.group(1), m.group(2), ret, m.group(1))
+            text = re.sub(r"(?m)^(\s*)(fn [^;{]*\))\s*(->[^;{]*)?;\s*$", _decl, text)
+            ovl = _read(os.path.join(VX, unit.name, "overlays", seg.overlay))
+            woven, winfo = weave.weave(text, ovl, seg.overlay)
+            out.append("// ---- real item (trait, contract clauses woven): %s %s" % (seg.file, " / ".join(seg.path)))
+            emit(woven)
+            info["items"].append({"item": " / ".join(seg.path), "file": seg.file, "sha256": sha256(raw),
+                                  "drift_lines": winfo["drift_lines"]})
+            info["drift_lines"] += winfo["drift_lines"]
         elif isinstance(seg, VImpl):
-            out.append("// ---- real code: %s" % seg.header)
+            out.append("// ---- real code: %s" % seg.header.split("\n")[0])
             out.append(seg.header + " {")
+            for g in seg.ghost_items:
+                if not re.match(r"\s*(pub\s+)?(open\s+|closed\s+)?spec fn ", g):
+                    raise Undecided("VImpl ghost item is not a spec fn: %r" % g)
+                out.append("    " + g)
+            for (ifile, ipath) in seg.inner_items:
+                isrc, iit = _extract(ifile, ipath)
+                emit(rustlex.item_text(isrc, iit))
+                info["items"].append({"item": " / ".join(ipath), "file": ifile, "sha256": sha256(rustlex.item_text(isrc, iit))})
             for vf in seg.fns:
                 do_fn(vf)
             out.append("}")
@@ -239,11 +282,11 @@ def scan_assumptions(text):
     return sorted(set(found))
 
 
-def _run_verus(path, unit, logbase):
+def _run_verus(path, unit, logbase, rustc_args=()):
     cmd = ["verus", path, "--output-json", "--time", "--multiple-errors", "5"]
     if unit.rlimit:
         cmd += ["--rlimit", str(unit.rlimit)]
-    cmd += unit.extra_args + ["--", "--error-format=json"]
+    cmd += unit.extra_args + ["--", "--error-format=json"] + list(rustc_args)
     rc, out, wall = run(cmd, cwd=os.path.dirname(path), timeout=1500, log=logbase + ".log")
     # stdout (json) and stderr (json diagnostics, one per line) are interleaved in `out`
     diags = []
@@ -266,6 +309,32 @@ def _run_verus(path, unit, logbase):
 
 
 def run_unit(unit, tier, want_props=None, logdir=None, seed=0):
+    """Wrapper: if the verifier cannot decide the unit at all (dialect error after an edit, lost item, lost
+    anchor, rlimit) and the unit has a bounded counterexample search, run the search.  A concrete failing input
+    on the real code is a violation in its own right (obligation kind 'bounded'); no hit leaves it undecided."""
+    try:
+        return _run_unit(unit, tier, want_props, logdir, seed)
+    except Undecided as e:
+        if not unit.cex_search:
+            raise
+        os.makedirs(logdir, exist_ok=True)
+        info = cex_search(unit, logdir)
+        if not info.get("found"):
+            raise
+        o = Obligation("verus:%s:bounded-search" % unit.name, "public API of the %s unit" % unit.name,
+                       "bounded search with executable spec twins (vx/%s/%s) -- stand-in used because the verifier "
+                       "could not process the unit: %s" % (unit.name, unit.cex_search["src"], str(e)[:300]),
+                       sorted(set(p for seg in unit.segments if isinstance(seg, VImpl) for vf in seg.fns for p in vf.props)),
+                       "cargo test (bounded search)", kind="bounded",
+                       bound="see vx/%s/%s" % (unit.name, unit.cex_search["src"]))
+        o.status = VIOLATED
+        o.detail = "verifier undecided (%s); failing inputs on the real code:\n%s" % (str(e)[:200], "\n".join(info["found"][:5]))
+        write_replay(unit, o, info)
+        obls = [o] if (want_props is None or set(o.props) & set(want_props)) else []
+        return obls, {"verus_unit": unit.name, "verifier_undecided": str(e)[:500]}
+
+
+def _run_unit(unit, tier, want_props=None, logdir=None, seed=0):
     t0 = time.time()
     wd = scratch_dir("woodpile-verus-")
     logdir = logdir or wd
@@ -278,11 +347,20 @@ def run_unit(unit, tier, want_props=None, logdir=None, seed=0):
     open(can_rs, "w").write(ctext)
     open(os.path.join(logdir, "assembled_%s.rs" % unit.name), "w").write(text)
     assumptions = scan_assumptions(text)
-    with cf.ThreadPoolExecutor(max_workers=2) as ex:
+    with cf.ThreadPoolExecutor(max_workers=2 + len(unit.extra_configs)) as ex:
         f1 = ex.submit(_run_verus, main_rs, unit, os.path.join(logdir, "verus_main"))
         f2 = ex.submit(_run_verus, can_rs, unit, os.path.join(logdir, "verus_canary"))
+        fx = [ex.submit(_run_verus, main_rs, unit, os.path.join(logdir, "verus_cfg%d" % i), cfg)
+              for i, cfg in enumerate(unit.extra_configs)]
         rc, out, wall, diags, res = f1.result()
         crc, cout, cwall, cdiags, cres = f2.result()
+        for i, f in enumerate(fx):
+            xrc, xout, xwall, xdiags, xres = f.result()
+            if xres is None:
+                raise Undecided("Verus (config %s) produced no result: %s" % (unit.extra_configs[i], xout[-800:]))
+            for d in xdiags:
+                d["message"] = "[cfg %s] %s" % (" ".join(unit.extra_configs[i]), d.get("message", ""))
+            diags = diags + xdiags
     if res is None:
         raise Undecided("Verus produced no result JSON (rc=%s): %s" % (rc, out[-1500:]))
     vr = res.get("verification-results", {})
